@@ -935,12 +935,12 @@ def r19_division_guarded_by_its_zero_test(ck, P, rid='C11-R19'):
         raise AnalysisBroken('%s: no division by a zero-tested value found in pixman-matrix.c' % rid)
 
 
-def r20_matrix_unit_keeps_no_state(ck, P, rid='C11-R20'):
+def r20_matrix_unit_keeps_no_state(ck, P, rid='C11-R20', unit='pixman-matrix.c', floor=20):
     """Who-may-write: the transform arithmetic is a set of pure functions of their arguments.  Nothing in pixman-matrix.c writes a global
     or thread-local object: a remembered result (a cache keyed on the argument) is only as good as its key, and the in-place idiom
     invert (&m, &m) overwrites the key's source before the key is taken."""
-    R = ck.rule(rid, 'no function of pixman-matrix.c stores into a global or thread-local variable, and no such variable that is not constant exists in the unit: with a one-entry cache of the last inversion, an in-place pixman_transform_invert records (inverse -> inverse), and the next inversion of that matrix returns its input as its own inverse with TRUE', floor=20)
-    u = P.units.get('pixman-matrix.c')
+    R = ck.rule(rid, 'no function of pixman-matrix.c stores into a global or thread-local variable, and no such variable that is not constant exists in the unit: with a one-entry cache of the last inversion, an in-place pixman_transform_invert records (inverse -> inverse), and the next inversion of that matrix returns its input as its own inverse with TRUE' + ('' if unit == 'pixman-matrix.c' else ' (applied to %s: a table remembered between calls points into a block the caller owns and may have changed or freed)' % unit), floor=floor)
+    u = P.units.get(unit)
     if u is None:
         raise AnalysisBroken('%s: pixman-matrix.c not compiled' % rid)
     n = 0
